@@ -185,3 +185,58 @@ NOT_COVERED = [
     "pathlib / glob are assumed (opaque path values; glob.iglob omits hidden parts and returns paths below the directory); the import system is trusted",
     "os.name == 'nt' branch (PureWindowsPath) is not analysed",
 ]
+
+
+# ------------------------------------------------------------------------------------------- replay on the real code
+@REG.replay(f"{MOD}:_search_dirs")
+def _replay_search_dirs(model, ob):
+    """a real directory tree with private (_x), hidden (.x), __init__.py and nested entries at every level; the oracle is the
+    property: files with the suffix whose relative path has no part starting with `_` (except a FILE __init__.py) and no
+    hidden part, each once"""
+    import os
+    import shutil
+    import tempfile
+    from pathlib import Path
+    from django_components.util.loader import _search_dirs
+    root = Path(tempfile.mkdtemp(prefix="djc-verif-c20-", dir=os.environ.get("TMPDIR")))
+    try:
+        rels = ["a.py", "pkg/b.py", "pkg/__init__.py", "pkg/sub/c.py", "_priv/d.py", "pkg/_priv/e.py", "pkg/_f.py", "_g.py",
+                ".hid/h.py", "pkg/.hid/i.py", "pkg/.j.py", ".k.py", "pkg/sub/.venv/l.py", "pkg/sub/__init__.py", "x.y/m.py", "pkg/n.txt"]
+        for d in ("d1", "d2"):
+            for rel in rels:
+                p = root / d / rel
+                p.parent.mkdir(parents=True, exist_ok=True)
+                p.write_text("")
+        dirs = [root / "d1", root / "d2"]
+        got = [str(Path(p).relative_to(root)) for p in _search_dirs(dirs, "**/*.py")]
+
+        def public(rel):
+            parts = Path(rel).parts
+            if any(x.startswith(".") for x in parts):
+                return False
+            if any(x.startswith("_") for x in parts[:-1]):
+                return False
+            return not parts[-1].startswith("_") or parts[-1] == "__init__.py"
+        want = sorted(f"{d}/{rel}" for d in ("d1", "d2") for rel in rels if rel.endswith(".py") and public(rel))
+        if sorted(got) != want or len(got) != len(set(got)):
+            extra, missing = sorted(set(got) - set(want)), sorted(set(want) - set(got))
+            return {"confirmed": True, "function": "_search_dirs", "inputs": {"tree (per directory)": rels, "search_glob": "**/*.py"},
+                    "expected": f"{len(want)} public files", "observed": f"extra: {extra[:6]} missing: {missing[:6]} duplicates: {len(got) - len(set(got))}"}
+    finally:
+        shutil.rmtree(root, ignore_errors=True)
+    return {"confirmed": False}
+
+
+@REG.replay(f"{MOD}:_filepath_to_python_module")
+def _replay_module_path(model, ob):
+    from pathlib import Path
+    from django_components.util.loader import _filepath_to_python_module
+    cases = [("/r/app/components/a.py", "/r/app", "app", "app.components.a"), ("/r/app/components/__init__.py", "/r/app", "app", "app.components"),
+             ("/r/components/x/y.py", "/r", None, "components.x.y"), ("/r/components/pkg/__init__.py", "/r", None, "components.pkg"),
+             ("/r/components/my_init__.py", "/r", "", "components.my_init__"), ("/r/c/a.b/m.py", "/r", None, "c.a.b.m")]
+    for f, root, pkg, want in cases:
+        got = _filepath_to_python_module(Path(f), Path(root), pkg)
+        if got != want:
+            return {"confirmed": True, "function": "_filepath_to_python_module", "inputs": {"file_path": f, "root_fs_path": root, "root_module_path": pkg},
+                    "expected": want, "observed": got}
+    return {"confirmed": False}
